@@ -11,10 +11,18 @@ import (
 
 type zzCfg struct {
 	comp, rep, rel bool
+	nl             bool // segment delimiter is LF (a CR right before it is dropped) instead of ~
+}
+
+func (c zzCfg) seg() byte {
+	if c.nl {
+		return '\n'
+	}
+	return '~'
 }
 
 func (c zzCfg) decl() *FileDecl {
-	d := &FileDecl{SegDelim: "~", ElemDelim: "*"}
+	d := &FileDecl{SegDelim: string([]byte{c.seg()}), ElemDelim: "*"}
 	if c.comp {
 		d.CompDelim = zzStrPtr(":")
 	}
@@ -43,7 +51,7 @@ func zzSpecSegments(in []byte, cfg zzCfg) (segs [][]byte, tail []byte) {
 			esc = false
 		case cfg.rel && b == '?':
 			esc = true
-		case b == '~':
+		case b == cfg.seg():
 			segs = append(segs, in[start:i]) // body without the delimiter
 			start = i + 1
 		}
@@ -109,6 +117,9 @@ func zzBytesEq(a, b []byte) bool {
 
 func zzAlphabet(in []byte, cfg zzCfg, wide bool) {
 	set := "~*A\n"
+	if cfg.nl {
+		set = "*A\n\r"
+	}
 	if cfg.comp {
 		set += ":"
 	}
@@ -146,16 +157,31 @@ func zzAlphabet(in []byte, cfg zzCfg, wide bool) {
 // input equal the reference tokenisation.
 func C07TokenVsSpec() {
 	L := zz.Param("L", 4)
-	k := zz.NondetChoice("cfg", 4)
-	cfg := []zzCfg{{true, true, true}, {true, false, true}, {false, false, true}, {true, true, false}}[k]
+	k := zz.NondetChoice("cfg", 5)
+	cfg := []zzCfg{{comp: true, rep: true, rel: true}, {comp: true, rel: true}, {rel: true}, {comp: true, rep: true},
+		{comp: true, rel: true, nl: true}}[k]
 	in := zz.NondetBytesN("in", zz.NondetChoice("len", L)+1)
 	zzAlphabet(in, cfg, zz.Param("wide", 0) == 1)
 	ReaderBufSize = zz.Param("bufsize", 128)
 	r := NewNonValidatingReader(&zzChunkReader{data: in, failAt: -1}, cfg.decl())
-	segs, tail := zzSpecSegments(in, cfg)
+	rawSegs, tail := zzSpecSegments(in, cfg)
 	// a last segment without terminator is a segment too (end of input acts as delimiter)
 	if !zzOnlyCRLF(tail) {
-		segs = append(segs, tail)
+		rawSegs = append(rawSegs, tail)
+	}
+	var segs [][]byte
+	for _, b := range rawSegs {
+		if cfg.nl {
+			// with LF as segment delimiter, tokens consisting of CR/LF only are skipped and a
+			// CR right before the LF does not belong to the segment
+			if zzOnlyCRLF(b) {
+				continue
+			}
+			if len(b) > 0 && b[len(b)-1] == '\r' {
+				b = b[:len(b)-1]
+			}
+		}
+		segs = append(segs, b)
 	}
 	si := 0
 	for i := 0; i < L+2; i++ {
